@@ -6,7 +6,10 @@ use iggy::error::IggyError;
 use iggy::identifier::{IdKind, Identifier};
 use iggy::locking::IggySharedMutFn;
 use std::sync::atomic::Ordering;
+#[cfg(not(kani))]
 use tokio::sync::RwLock;
+#[cfg(kani)]
+use iggy::verif_model::lock::RwLock;
 use tracing::info;
 
 impl Topic {
